@@ -1,6 +1,7 @@
 package main
 
-// C05 (list as an ordered sequence: guard domains, safe indexing, write-before-panic, ownership) and C17 (Sort / Reverse).
+// C05 (list as an ordered sequence: guard domains, safe indexing, write-before-panic, ownership) and C17 (Sort / Reverse),
+// decided on the SX path normal form with finite folding of the integer guards.
 
 import (
 	"go/ast"
@@ -49,19 +50,28 @@ func smallInputs(n int64, consts []int64) []int64 {
 	return out
 }
 
+func fmtInts(a []int64) string {
+	var s []string
+	for _, v := range a {
+		s = append(s, itoa(int(v)))
+	}
+	return "(" + strings.Join(s, ",") + ")"
+}
+
 func init() {
 	register(&Property{
 		ID: "C05",
-		Explanation: "Whole-model conformance over all programs is beyond static reach. Decided clauses: (R1) the panic guards of Insert/Replace/Get/Delete/TypeOf/SubList/Pop, folded as pure integer preludes over a break-point set of (n, arguments), equal the documented domains — equality, not inclusion; " +
-			"(R2) SAFE-INDEX: every index/slice expression on a spine in the package (floor 17) is reached only with 0 <= i <= len-1 / 0 <= a <= b <= len — by LENGTH, never by capacity, so no stale element beyond len can be resurrected; " +
-			"(R3) in the single-index mutators no write effect (E3) precedes an explicit panic; (R4) OWN: no two containers share a backing array; (R6) Get returns spine[i].getVal(), IndexOf/Contains compare getVal() with ==; (R7) observers are write-free. " +
+		Explanation: "Whole-model conformance over all programs is beyond static reach. Decided clauses, all on the symbolic path normal form (SX): (R1) the panic guards of Insert/Replace/Get/Delete/TypeOf/SubList/Pop, folded over a break-point set of (n, arguments), equal the documented domains — equality, not inclusion; " +
+			"(R2) SAFE-INDEX: every index/slice term on a list spine that occurs on any path of the package is reached only with 0 <= i <= len-1 / 0 <= a <= b <= len — by LENGTH, never by capacity, so no stale element beyond len can be resurrected; " +
+			"(R3) in the single-index mutators no path that ends in a panic contains a write to a list; (R4) OWN: no two containers share a backing array (E3); (R6) Get returns spine[i].getVal(), IndexOf compares getVal() with ==; (R7) observers are write-free (E3). " +
 			"What the sequence model predicts beyond these clauses (e.g. the exact element order after Insert/Delete — the segment algebra R5 of DESIGN.md is NOT built) is not covered.",
 		Rules: []Rule{
 			{ID: "C05.R1", Doc: "guard domains equal the documented ones: Insert [0,n]; Replace/Get/Delete [0,n-1]; Pop = Delete(n-1); TypeOf defined exactly on [0,n-1]; SubList per its end<=0 rule", Run: c05Domains},
-			{ID: "C05.R2", Doc: "SAFE-INDEX: every spine index/slice in the package lies within the current length on every input that reaches it", Run: c05SafeIndex},
-			{ID: "C05.R3", Doc: "no write effect precedes an explicit panic in Insert, Replace, Get, Delete, Pop, SubList", Run: c05WriteBeforePanic},
-			{ID: "C05.R4", Doc: "OWN: no two containers ever share a backing array (package-wide)", Run: func(c *Ctx) { c.R.Floor("C05.R4", ownRule(c, "C05.R4"), 14) }},
-			{ID: "C05.R6", Doc: "reference semantics: Get returns spine[index].getVal(); IndexOf/Contains compare getVal() with ==", Run: c05Reference},
+			{ID: "C05.R2", Doc: "SAFE-INDEX: every list-spine index/slice in the package lies within the current length on every input that reaches it", Run: c05SafeIndex},
+			{ID: "C05.R3", Doc: "no path ending in a panic of Insert, Replace, Get, Delete, Pop, SubList, Sort writes a list before it", Run: c05WriteBeforePanic},
+			{ID: "C05.R4", Doc: "OWN: no two containers ever share a backing array (package-wide)", Run: func(c *Ctx) { c.R.Floor("C05.R4", ownRule(c, "C05.R4"), 10) }},
+			{ID: "C05.R6", Doc: "reference semantics: Get returns spine[index].getVal(); IndexOf compares getVal() with ==", Run: c05Reference},
+			{ID: "C05.R8", Doc: "Reverse moves element i to n-1-i in place (= C17.R2)", Run: func(c *Ctx) { reverseRule(c, "C05.R8") }},
 			{ID: "C05.R7", Doc: "PURE: the observers (and SubList, Concat) write nothing pre-existing", Run: func(c *Ctx) {
 				var names []string
 				for _, n := range []string{"Count", "Empty", "Get", "GetObject", "GetList", "GetString", "GetBool", "GetInt", "GetFloat", "TypeOf", "Slice", "Contains", "IndexOf", "SubList", "Concat"} {
@@ -73,13 +83,6 @@ func init() {
 	})
 }
 
-type domSpec struct {
-	name  string
-	nargs int
-	spec  func(n int64, p []int64) bool // must panic?
-	doc   string
-}
-
 func subListEff(n, end int64) int64 {
 	if end <= 0 {
 		return n + end
@@ -88,7 +91,12 @@ func subListEff(n, end int64) int64 {
 }
 
 func c05Domains(c *Ctx) {
-	specs := []domSpec{
+	specs := []struct {
+		name  string
+		nargs int
+		spec  func(n int64, p []int64) bool
+		doc   string
+	}{
 		{"(*list).Insert", 1, func(n int64, p []int64) bool { return p[0] < 0 || p[0] > n }, "0..n"},
 		{"(*list).Replace", 1, func(n int64, p []int64) bool { return p[0] < 0 || p[0] >= n }, "0..n-1"},
 		{"(*list).Get", 1, func(n int64, p []int64) bool { return p[0] < 0 || p[0] >= n }, "0..n-1"},
@@ -105,116 +113,43 @@ func c05Domains(c *Ctx) {
 		}
 		cnt++
 		ob := c.Ob("C05.R1", sp.name+"/domain", fd.Pos())
-		ps := intParams(c, fd)
-		if len(ps) != sp.nargs {
-			ob.Undecided("unexpected integer parameters")
-			continue
-		}
-		consts := c.intConstantsIn(&ast.ParenExpr{X: &ast.FuncLit{Type: fd.Type, Body: fd.Body}})
-		bad, cases, undec := "", 0, ""
-		for n := int64(0); n <= 5 && bad == "" && undec == ""; n++ {
-			vals := smallInputs(n, consts)
-			var rec func(k int, cur []int64)
-			rec = func(k int, cur []int64) {
-				if bad != "" || undec != "" {
-					return
-				}
-				if k == sp.nargs {
-					vars := map[types.Object]int64{}
-					for i, p := range ps {
-						vars[p] = cur[i]
-					}
-					out, _, why := c.foldFunc(fd, foldCase{N: n, Vars: vars}, nil)
-					cases++
-					if out == foUndec {
-						undec = why
-						return
-					}
-					want := sp.spec(n, cur)
-					if (out == foPanic) != want {
-						bad = "n=" + itoa(int(n)) + " args=" + fmtInts(cur) + ": panics=" + boolStr(out == foPanic) + ", documented domain says " + boolStr(want)
-					}
-					return
-				}
-				for _, v := range vals {
-					rec(k+1, append(cur, v))
-				}
-			}
-			rec(0, nil)
-		}
+		cases, bad, undec := c.panicDomain(fd, sp.nargs, sp.spec)
 		switch {
 		case undec != "":
-			ob.Undecided("guard prelude cannot be folded: %s", undec)
+			ob.Undecided("guard cannot be folded: %s", undec)
 		case bad != "":
 			ob.Fail("panic guard differs from the documented domain (%s): %s", sp.doc, bad)
 		default:
-			ob.Ok("panics exactly outside the documented domain %s (guard prelude folded over %d (n, argument) combinations)", sp.doc, cases)
+			ob.Ok("panics exactly outside the documented domain %s (paths folded over %d (n, argument) combinations)", sp.doc, cases)
 		}
 	}
-	// Delete: per iteration, guard on the current index against the current length
 	if fd := c.NeedDecl("C05.R1", "(*list).Delete"); fd != nil {
 		cnt++
 		c05Delete(c, fd)
 	}
-	// TypeOf: reaches its kind switch exactly on [0, n-1]
 	if fd := c.NeedDecl("C05.R1", "(*list).TypeOf"); fd != nil {
 		cnt++
-		ob := c.Ob("C05.R1", "(*list).TypeOf/domain", fd.Pos())
-		ts := findTypeSwitch(fd.Body)
-		ps := intParams(c, fd)
-		if ts == nil || len(ps) != 1 {
-			ob.Undecided("no kind switch / unexpected parameters")
-		} else {
-			bad, undec := "", ""
-			for n := int64(0); n <= 5 && bad == "" && undec == ""; n++ {
-				for _, v := range smallInputs(n, nil) {
-					out, _, why := c.foldFunc(fd, foldCase{N: n, Vars: map[types.Object]int64{ps[0]: v}}, ts)
-					if out == foUndec {
-						undec = why
-						break
-					}
-					want := v >= 0 && v < n
-					if (out == foReach) != want {
-						bad = "n=" + itoa(int(n)) + " index=" + itoa(int(v)) + ": kind switch reached=" + boolStr(out == foReach) + ", expected " + boolStr(want)
-						break
-					}
-					if out == foPanic {
-						bad = "TypeOf panics for index " + itoa(int(v))
-						break
-					}
-				}
-			}
-			switch {
-			case undec != "":
-				ob.Undecided("%s", undec)
-			case bad != "":
-				ob.Fail("%s", bad)
-			default:
-				ob.Ok("the kind switch is reached exactly for 0 <= index <= n-1; everything else falls to TypeUndefined; no panic")
-			}
-		}
+		c05TypeOf(c, fd)
 	}
-	// Pop = Delete(Count()-1)
 	if fd := c.NeedDecl("C05.R1", "(*list).Pop"); fd != nil {
 		cnt++
 		ob := c.Ob("C05.R1", "(*list).Pop", fd.Pos())
-		r := singleReturn(fd.Body)
-		good := r != nil && len(r.Results) == 1
+		paths, why := c.runPaths(fd)
+		v := c.view(fd)
+		good := why == "" && len(paths) == 1 && paths[0].End == "return" && len(paths[0].Vals) == 1
 		if good {
-			call, ok := unparen(r.Results[0]).(*ast.CallExpr)
-			good = ok && len(call.Args) == 1 && !call.Ellipsis.IsValid()
+			name, args, ok := v.selfCall(paths[0].Vals[0])
+			good = ok && name == "Delete" && len(args) == 1
 			if good {
-				sel, ok := unparen(call.Fun).(*ast.SelectorExpr)
-				good = ok && c.isSelf(fd, sel.X) && c.callee(call) != nil && c.callee(call).Name() == "Delete"
+				// the variadic pack of one element
+				arg := args[0]
+				if lit, ok := arg.(TLit); ok && len(lit.Elts) == 1 {
+					arg = lit.Elts[0]
+				}
 				for n := int64(0); n <= 3 && good; n++ {
-					ev := &evalEnv{c: c, hook: func(e ast.Expr) (int64, bool) {
-						if c.isCountOfRecv(fd, e) {
-							return n, true
-						}
-						return 0, false
-					}}
-					v, ok := ev.int(call.Args[0])
-					good = ok && v == n-1
+					e := &termEnv{hook: v.intHook(n, nil, nil)}
+					val, ok := e.int(arg)
+					good = ok && val == n-1
 				}
 			}
 		}
@@ -223,89 +158,86 @@ func c05Domains(c *Ctx) {
 	c.R.Floor("C05.R1", cnt, 7)
 }
 
-func fmtInts(a []int64) string {
-	var s []string
-	for _, v := range a {
-		s = append(s, itoa(int(v)))
-	}
-	return "(" + strings.Join(s, ",") + ")"
-}
-
-// deleteShape finds, in Delete, the variadic parameter, the loop, the per-iteration index variable and the write statement.
-func deleteShape(c *Ctx, fd *ast.FuncDecl) (loop *ast.ForStmt, idxVar types.Object, write ast.Stmt, variadic types.Object) {
+// variadicParam returns the variadic parameter object of fd, if any.
+func variadicParam(c *Ctx, fd *ast.FuncDecl) types.Object {
 	for _, f := range fd.Type.Params.List {
 		if _, ok := f.Type.(*ast.Ellipsis); ok && len(f.Names) == 1 {
-			variadic = c.Info.Defs[f.Names[0]]
+			return c.Info.Defs[f.Names[0]]
 		}
 	}
-	for _, s := range fd.Body.List {
-		if fs, ok := s.(*ast.ForStmt); ok && loop == nil {
-			loop = fs
-		}
-	}
-	if loop == nil {
-		return
-	}
-	for _, s := range loop.Body.List {
-		if as, ok := s.(*ast.AssignStmt); ok && len(as.Lhs) == 1 && len(as.Rhs) == 1 {
-			if ix, ok := unparen(as.Rhs[0]).(*ast.IndexExpr); ok && c.obj(ix.X) == variadic && variadic != nil && as.Tok == token.DEFINE {
-				idxVar = c.obj(as.Lhs[0])
-			}
-			if c.isRecvSpine(fd, as.Lhs[0]) {
-				write = s
-			}
-		}
-	}
-	return
+	return nil
 }
 
-func (c *Ctx) foldDelete(fd *ast.FuncDecl, loop *ast.ForStmt, idxVar types.Object, variadic types.Object, n, index int64, target ast.Node) (string, *evalEnv, string) {
-	h, ok := c.forHeader(loop)
-	if !ok {
-		return foUndec, nil, "loop header outside the vocabulary"
-	}
-	ev := &evalEnv{c: c, vars: map[types.Object]int64{idxVar: index, h.Var: 0}}
-	ev.hook = func(e ast.Expr) (int64, bool) {
-		if c.isCountOfRecv(fd, e) {
-			return n, true
+// deleteLoop finds the loop of Delete on its (single) non-panicking outer path.
+func deleteLoop(paths []*Path) *LoopRec {
+	for _, p := range paths {
+		for _, s := range p.Steps {
+			if s.Kind == "loop" {
+				return s.Loop
+			}
 		}
-		if call, ok := e.(*ast.CallExpr); ok && c.isBuiltin(call, "len") && len(call.Args) == 1 && c.obj(call.Args[0]) == variadic {
-			return 1, true // a single-index call
-		}
-		return 0, false
 	}
-	f := &folder{c: c, fd: fd, ev: ev, target: target}
-	out := f.run(fd.Body.List)
-	if out == "" {
-		out = foSkip
-	}
-	return out, ev, f.why
+	return nil
 }
 
 func c05Delete(c *Ctx, fd *ast.FuncDecl) {
 	ob := c.Ob("C05.R1", "(*list).Delete/domain", fd.Pos())
-	loop, idxVar, write, variadic := deleteShape(c, fd)
-	if loop == nil || idxVar == nil || write == nil || variadic == nil {
-		ob.Undecided("Delete is not a loop over its variadic indexes with a per-iteration index and one spine update")
+	paths, why := c.runPaths(fd)
+	if why != "" {
+		ob.Undecided("body outside the path vocabulary: %s", why)
 		return
 	}
-	h, ok := c.forHeader(loop)
-	if !ok || h.Step != -1 {
-		ob.Fail("indexes are not processed in descending position order (after sorting, deleting from the back keeps the remaining indexes valid)")
+	v := c.view(fd)
+	variadic := variadicParam(c, fd)
+	loop := deleteLoop(paths)
+	if loop == nil || variadic == nil {
+		ob.Undecided("Delete is not a loop over its variadic indexes")
+		return
+	}
+	// order: positions are processed from the back (after the ascending sort), so that earlier removals do not shift later indexes
+	if loop.For != nil {
+		if h, ok := c.forHeader(loop.For); !ok || h.Step >= 0 {
+			ob.Fail("indexes are not processed in descending position order (after sorting, deleting from the back keeps the remaining indexes valid)")
+			return
+		}
+	} else {
+		ob.Undecided("index loop is not a counted loop")
 		return
 	}
 	bad, undec := "", ""
 	for n := int64(0); n <= 5 && bad == "" && undec == ""; n++ {
-		for _, v := range smallInputs(n, nil) {
-			out, _, why := c.foldDelete(fd, loop, idxVar, variadic, n, v, write)
-			if out == foUndec {
+		for _, val := range smallInputs(n, nil) {
+			hook := v.intHook(n, nil, func(t Term) (int64, bool) {
+				if ix, ok := t.(TIndex); ok && isParamTerm(ix.X, variadic) {
+					return val, true
+				}
+				return 0, false
+			})
+			sel, why := pathsFor(loop.Iter, hook, func(cd Cond) bool { return !intFoldable(cd.T) })
+			if why != "" {
 				undec = why
 				break
 			}
-			want := v < 0 || v >= n
-			if (out == foPanic) != want || (!want && out != foReach) {
-				bad = "n=" + itoa(int(n)) + " index=" + itoa(int(v)) + ": outcome " + out + ", documented domain 0..n-1 says panic=" + boolStr(want)
-				break
+			want := val < 0 || val >= n
+			for _, p := range sel {
+				panics := p.End == "panic"
+				if panics != want {
+					bad = "n=" + itoa(int(n)) + " index=" + itoa(int(val)) + ": panics=" + boolStr(panics) + ", documented domain 0..n-1 says " + boolStr(want)
+				}
+				if !panics {
+					wrote := false
+					for _, s := range p.StepsOf("store") {
+						if sel, ok := s.LHS.(TSel); ok && sel.Field == v.ct.Spine && v.isRecv(sel.X) {
+							wrote = true
+						}
+					}
+					if !wrote {
+						bad = "an in-range index does not reach the removal"
+					}
+				}
+			}
+			if len(sel) == 0 {
+				undec = "no iteration path is feasible"
 			}
 		}
 	}
@@ -315,271 +247,536 @@ func c05Delete(c *Ctx, fd *ast.FuncDecl) {
 	case bad != "":
 		ob.Fail("Delete's guard differs from the documented domain: %s", bad)
 	default:
-		ob.Ok("per iteration: panics exactly when the index lies outside 0..n-1 of the CURRENT length, otherwise reaches the removal")
+		ob.Ok("per iteration: panics exactly when the index lies outside 0..n-1 of the CURRENT length, otherwise reaches the removal; indexes processed from the back")
+	}
+}
+
+func c05TypeOf(c *Ctx, fd *ast.FuncDecl) {
+	ob := c.Ob("C05.R1", "(*list).TypeOf/domain", fd.Pos())
+	paths, why := c.runPaths(fd)
+	if why != "" {
+		ob.Undecided("body outside the path vocabulary: %s", why)
+		return
+	}
+	v := c.view(fd)
+	ps := intParams(c, fd)
+	if len(ps) != 1 {
+		ob.Undecided("unexpected parameters")
+		return
+	}
+	isUndefined := func(t Term) bool {
+		tv, ok := t.(TVar)
+		if ok {
+			return tv.Obj.Name() == "TypeUndefined"
+		}
+		k, ok := t.(TConst)
+		return ok && k.Val.String() == "0"
+	}
+	bad, undec := "", ""
+	for n := int64(0); n <= 5 && bad == "" && undec == ""; n++ {
+		for _, val := range smallInputs(n, nil) {
+			sel, why := pathsFor(paths, v.intHook(n, map[types.Object]int64{ps[0]: val}, nil), func(cd Cond) bool { return !intFoldable(cd.T) })
+			if why != "" {
+				undec = why
+				break
+			}
+			inDomain := val >= 0 && val < n
+			defined := 0
+			for _, p := range sel {
+				if p.End == "panic" {
+					bad = "TypeOf panics for index " + itoa(int(val)) + " with length " + itoa(int(n))
+					break
+				}
+				if p.End != "return" || len(p.Vals) != 1 {
+					undec = "a path does not return a Type"
+					break
+				}
+				touches := false
+				for _, cd := range p.Conds() {
+					collectSubterms(cd.T, func(s Term) {
+						if ix, ok := s.(TIndex); ok && v.isRecvSpine(ix.X) {
+							touches = true
+						}
+					})
+				}
+				if !isUndefined(p.Vals[0]) {
+					defined++
+				}
+				if !inDomain && (touches || !isUndefined(p.Vals[0])) {
+					bad = "n=" + itoa(int(n)) + " index=" + itoa(int(val)) + ": outside 0..n-1 the element is examined / a kind other than TypeUndefined is reported"
+				}
+			}
+			if inDomain && defined == 0 && bad == "" && undec == "" {
+				bad = "n=" + itoa(int(n)) + " index=" + itoa(int(val)) + ": inside 0..n-1 no path reports a kind"
+			}
+		}
+	}
+	switch {
+	case undec != "":
+		ob.Undecided("%s", undec)
+	case bad != "":
+		ob.Fail("%s", bad)
+	default:
+		ob.Ok("the element's kind is examined exactly for 0 <= index <= n-1; everything else yields TypeUndefined; no panic")
 	}
 }
 
 // ---------------------------------------------------------------- SAFE-INDEX
 
-type spineSite struct {
-	fd   *ast.FuncDecl
-	expr ast.Expr // *ast.IndexExpr or *ast.SliceExpr
-	base ast.Expr
-	ct   *Cont
-}
-
-func spineSites(c *Ctx) []spineSite {
-	var out []spineSite
+// funcsWithListSpineAccess: declarations whose body syntactically indexes or slices a list spine.
+func funcsWithListSpineAccess(c *Ctx) []*ast.FuncDecl {
+	var out []*ast.FuncDecl
 	for _, name := range c.DeclNames() {
 		fd := c.Decl(name)
+		has := false
 		ast.Inspect(fd.Body, func(n ast.Node) bool {
-			switch x := n.(type) {
+			var x ast.Expr
+			switch e := n.(type) {
 			case *ast.IndexExpr:
-				if b, ct := c.spineBase(x.X); ct != nil && ct.IsList {
-					out = append(out, spineSite{fd, x, b, ct})
-				}
+				x = e.X
 			case *ast.SliceExpr:
-				if b, ct := c.spineBase(x.X); ct != nil && ct.IsList {
-					out = append(out, spineSite{fd, x, b, ct})
+				x = e.X
+			}
+			if x != nil {
+				if _, ct := c.spineBase(x); ct != nil && ct.IsList {
+					has = true
 				}
 			}
 			return true
 		})
+		if has {
+			out = append(out, fd)
+		}
 	}
 	return out
 }
 
-// enclosing statements
-func enclosingLoops(fd *ast.FuncDecl, target ast.Node) (ranges []*ast.RangeStmt, fors []*ast.ForStmt) {
-	ast.Inspect(fd.Body, func(n ast.Node) bool {
-		switch x := n.(type) {
-		case *ast.RangeStmt:
-			if containsNode(x.Body, target) {
-				ranges = append(ranges, x)
-			}
-		case *ast.ForStmt:
-			if containsNode(x.Body, target) {
-				fors = append(fors, x)
-			}
+// loopVarValues enumerates the values a counted loop's variables take for a given folding hook: simulates the header
+// (init terms, condition term, post statement) — integers only. Returns one assignment per iteration.
+func (c *Ctx) loopIterations(l *LoopRec, hook func(Term) (int64, bool), limit int) ([]map[types.Object]int64, string) {
+	if l.For == nil {
+		return nil, "not a counted loop"
+	}
+	state := map[types.Object]int64{}
+	var vars []types.Object
+	for o, t := range l.Init {
+		if !isIntType(o.Type()) {
+			continue
 		}
-		return true
-	})
-	return
+		e := &termEnv{hook: hook}
+		val, ok := e.int(t)
+		if !ok {
+			return nil, "loop initialiser outside the vocabulary: " + e.fail
+		}
+		state[o] = val
+		vars = append(vars, o)
+	}
+	if len(vars) == 0 || l.CondT == nil {
+		return nil, "loop has no integer loop variable / no condition"
+	}
+	var out []map[types.Object]int64
+	for it := 0; it < limit; it++ {
+		h := func(t Term) (int64, bool) {
+			if lv, ok := t.(TLoop); ok && lv.ID == l.ID {
+				if val, ok := state[lv.Obj]; ok {
+					return val, true
+				}
+			}
+			return hook(t)
+		}
+		e := &termEnv{hook: h}
+		cond, ok := e.bool(l.CondT)
+		if !ok {
+			return nil, "loop condition outside the vocabulary: " + e.fail
+		}
+		if !cond {
+			return out, ""
+		}
+		cp := map[types.Object]int64{}
+		for k, val := range state {
+			cp[k] = val
+		}
+		out = append(out, cp)
+		// post statement (AST, integers only)
+		if l.Post == nil {
+			return nil, "loop without post statement"
+		}
+		ev := &evalEnv{c: c, vars: map[types.Object]int64{}}
+		for k, val := range state {
+			ev.vars[k] = val
+		}
+		next := map[types.Object]int64{}
+		switch p := l.Post.(type) {
+		case *ast.IncDecStmt:
+			o := c.obj(p.X)
+			d := int64(1)
+			if p.Tok == token.DEC {
+				d = -1
+			}
+			next[o] = state[o] + d
+		case *ast.AssignStmt:
+			if len(p.Lhs) != len(p.Rhs) {
+				return nil, "post statement outside the vocabulary"
+			}
+			for i, lh := range p.Lhs {
+				o := c.obj(lh)
+				rhs := p.Rhs[i]
+				var val int64
+				var ok bool
+				switch p.Tok {
+				case token.ASSIGN:
+					val, ok = ev.int(rhs)
+				case token.ADD_ASSIGN:
+					val, ok = ev.int(rhs)
+					val = state[o] + val
+				case token.SUB_ASSIGN:
+					val, ok = ev.int(rhs)
+					val = state[o] - val
+				}
+				if !ok {
+					return nil, "post statement outside the vocabulary"
+				}
+				next[o] = val
+			}
+		default:
+			return nil, "post statement outside the vocabulary"
+		}
+		for k, val := range next {
+			state[k] = val
+		}
+	}
+	return nil, "loop does not terminate within the folding limit"
 }
 
-// lengthLinked: the list held in variable v has, at the site, the same length as the receiver:
-// created with make([]field, count(recv)), or guarded by `count(recv) != count(v) => return`.
-func lengthLinked(c *Ctx, fd *ast.FuncDecl, v types.Object, ct *Cont) string {
-	why := ""
-	ast.Inspect(fd.Body, func(n ast.Node) bool {
-		switch x := n.(type) {
-		case *ast.AssignStmt:
-			if len(x.Lhs) == 1 && len(x.Rhs) == 1 && c.obj(x.Lhs[0]) == v && x.Tok == token.DEFINE {
-				ast.Inspect(x.Rhs[0], func(m ast.Node) bool {
-					if call, ok := m.(*ast.CallExpr); ok && c.isBuiltin(call, "make") && len(call.Args) == 2 && c.isCountOfRecv(fd, call.Args[1]) {
-						why = "created with make(spine, count of the receiver)"
-					}
-					return true
-				})
-			}
-		case *ast.IfStmt:
-			for _, d := range splitOr(x.Cond) {
-				be, ok := unparen(d).(*ast.BinaryExpr)
-				if !ok || be.Op != token.NEQ || !blockTerminates(c, x.Body) {
-					continue
-				}
-				if (c.isCountOfRecv(fd, be.X) && c.isCountOfVar(be.Y, v, ct)) || (c.isCountOfRecv(fd, be.Y) && c.isCountOfVar(be.X, v, ct)) {
-					why = "lengths compared equal by the guard " + exprStr(d) + " => return"
+// spineLen gives the length of the spine of a base term under the folding input.
+func (v *sxView) spineLen(base Term, n int64, others map[string]int64, hook func(Term) (int64, bool)) (int64, bool) {
+	if v.isRecv(base) {
+		return n, true
+	}
+	// a container literal created in this function: &list{val: make([]field, L)}
+	if a, ok := base.(TAddr); ok {
+		if lit, ok := a.X.(TLit); ok {
+			for _, el := range lit.Elts {
+				if mk, ok := el.(TBuiltin); ok && mk.Name == "make" && len(mk.Args) >= 1 {
+					e := &termEnv{hook: hook}
+					return e.int(mk.Args[0])
 				}
 			}
 		}
-		return true
-	})
-	return why
+	}
+	if m, ok := others[key(base)]; ok {
+		return m, true
+	}
+	return 0, false
 }
 
 func c05SafeIndex(c *Ctx) {
-	sites := spineSites(c)
-	c.R.Floor("C05.R2", len(sites), 17)
-	perFn := map[string]int{}
-	for _, s := range sites {
-		name := declName(s.fd)
-		perFn[name]++
-		ob := c.Ob("C05.R2", name+"/"+exprStr(s.expr)+"#"+itoa(perFn[name]), s.expr.Pos())
-		recv := c.recvObj(s.fd)
-		baseObj := c.obj(s.base)
-		ranges, fors := enclosingLoops(s.fd, s.expr)
-		// Case A: index is the key of an enclosing range over a list spine
-		if ix, ok := s.expr.(*ast.IndexExpr); ok {
-			done := false
-			for _, rs := range ranges {
-				rb, rct := c.spineBase(rs.X)
-				if rct == nil || rs.Key == nil || c.obj(ix.Index) != c.obj(rs.Key) || c.obj(rs.Key) == nil {
-					continue
-				}
-				if writesVar(c, rs.Body, c.obj(rs.Key)) {
-					continue
-				}
-				if c.obj(rb) == baseObj {
-					if spineShrinksIn(c, s.fd, rs.Body, baseObj) {
-						ob.Fail("the spine is re-sliced inside the loop that indexes it by its range key")
-					} else {
-						ob.Ok("index is the key of `range` over the same spine: 0 <= i < len")
-					}
-					done = true
-				} else if c.obj(rb) == recv && baseObj != nil {
-					if why := lengthLinked(c, s.fd, baseObj, s.ct); why != "" {
-						ob.Ok("index is the key of `range` over the receiver's spine and the indexed list has the same length (%s)", why)
-					} else {
-						ob.Fail("a second list is indexed by the receiver's range key without a guard that both have the same length: index out of range when it is shorter")
-					}
-					done = true
-				}
-			}
-			if done {
-				continue
-			}
-		}
-		if baseObj != recv || recv == nil {
-			ob.Undecided("index/slice on the spine of %s is not covered by a range key or a length link", exprStr(s.base))
+	fns := funcsWithListSpineAccess(c)
+	total := 0
+	for _, fd := range fns {
+		name := declName(fd)
+		paths, why := c.runPaths(fd)
+		if why != "" {
+			c.Ob("C05.R2", name, fd.Pos()).Undecided("body outside the path vocabulary: %s", why)
 			continue
 		}
-		// Case B: fold the integer prelude
-		ps := intParams(c, s.fd)
-		var loopVars []types.Object
-		for _, fs := range fors {
-			if h, ok := c.forHeader(fs); ok {
-				loopVars = append(loopVars, h.Var)
-			} else {
-				loopVars = nil
-				ob.Undecided("enclosing loop header outside the vocabulary")
-				break
-			}
-		}
-		if len(fors) > 0 && loopVars == nil {
+		v := c.view(fd)
+		if v.recv == nil {
+			c.Ob("C05.R2", name, fd.Pos()).Undecided("list spine accessed outside a method")
 			continue
 		}
-		isDelete := false
-		var dLoop *ast.ForStmt
-		var dIdx, dVar types.Object
-		if l, iv, w, vv := deleteShape(c, s.fd); l != nil && iv != nil && w != nil && vv != nil && containsNode(l, s.expr) {
-			isDelete, dLoop, dIdx, dVar = true, l, iv, vv
-		}
+		accs := v.spineAccesses(paths)
+		ps := intParams(c, fd)
+		variadic := variadicParam(c, fd)
 		nMin := int64(0)
-		if isSortLike(c, s.fd) {
+		if fd.Name.Name == "Sort" {
 			nMin = 1 // precondition from the property text: Sort only on non-empty lists (C17)
 		}
-		reached, bad, undec := 0, "", ""
-		for n := nMin; n <= 5 && bad == "" && undec == ""; n++ {
-			vals := smallInputs(n, nil)
-			inputs := append(append([]types.Object{}, ps...), loopVars...)
-			if isDelete {
-				inputs = []types.Object{dIdx}
-			}
-			var rec func(k int, vars map[types.Object]int64)
-			rec = func(k int, vars map[types.Object]int64) {
-				if bad != "" || undec != "" {
-					return
-				}
-				if k == len(inputs) {
-					var out, why string
-					var ev *evalEnv
-					if isDelete {
-						out, ev, why = c.foldDelete(s.fd, dLoop, dIdx, dVar, n, vars[dIdx], s.expr)
-					} else {
-						cp := map[types.Object]int64{}
-						for a, b := range vars {
-							cp[a] = b
-						}
-						out, ev, why = c.foldFunc(s.fd, foldCase{N: n, Vars: cp}, s.expr)
-					}
-					switch out {
-					case foUndec:
-						undec = why
-					case foReach:
-						reached++
-						if msg := checkBounds(c, ev, s.expr, n); msg != "" {
-							bad = "n=" + itoa(int(n)) + " inputs=" + fmtVars(inputs, vars) + ": " + msg
-						}
-					}
-					return
-				}
-				for _, v := range vals {
-					if v < -8 || v > 9 {
-						if len(inputs) > 1 {
-							continue // keep the product small: far values only matter for single guards
-						}
-					}
-					vars[inputs[k]] = v
-					rec(k+1, vars)
-				}
-			}
-			rec(0, map[types.Object]int64{})
+		// distinct accesses by term shape (ignoring the path they were found on)
+		type agg struct {
+			acc     spineAccess
+			reached int
+			bad     string
+			undec   string
 		}
-		switch {
-		case undec != "":
-			ob.Undecided("prelude cannot be folded up to this access: %s", undec)
-		case bad != "":
-			ob.Fail("spine access can be out of its LENGTH (beyond len but within cap silently resurrects deleted elements; otherwise index out of range): %s", bad)
-		case reached == 0:
-			ob.Undecided("no folded input reaches this access")
-		default:
-			ob.Ok("within length on all %d folded inputs that reach it", reached)
+		byShape := map[string]*agg{}
+		var order []string
+		for _, a := range accs {
+			sh := c.termStr(a.T)
+			if _, ok := byShape[sh]; !ok {
+				byShape[sh] = &agg{acc: a}
+				order = append(order, sh)
+			}
+		}
+		for _, a := range accs {
+			ag := byShape[c.termStr(a.T)]
+			if ag.bad != "" || ag.undec != "" {
+				continue
+			}
+			// other containers whose length matters
+			otherBases := map[string]Term{}
+			collect := func(t Term) {
+				collectSubterms(t, func(s Term) {
+					if b, ok := v.countOf(s); ok && !v.isSelf(b) {
+						otherBases[key(b)] = b
+					}
+				})
+			}
+			for _, cd := range a.Conds {
+				collect(cd.T)
+			}
+			if !v.isRecv(a.Base) {
+				if _, isLit := a.Base.(TAddr); !isLit {
+					otherBases[key(a.Base)] = a.Base
+				}
+			}
+			var obKeys []string
+			for k := range otherBases {
+				obKeys = append(obKeys, k)
+			}
+			sortStrings(obKeys)
+			if len(obKeys) > 2 {
+				ag.undec = "too many containers involved"
+				continue
+			}
+			for n := nMin; n <= 5 && ag.bad == "" && ag.undec == ""; n++ {
+				// enumerate: int params, a free variadic element, other lengths
+				type dim struct {
+					obj types.Object
+					key string
+				}
+				var dims []dim
+				for _, p := range ps {
+					dims = append(dims, dim{obj: p})
+				}
+				for _, k := range obKeys {
+					dims = append(dims, dim{key: k})
+				}
+				freeVariadic := false
+				if variadic != nil {
+					collectSubterms(a.T, func(s Term) {
+						if ix, ok := s.(TIndex); ok && isParamTerm(ix.X, variadic) {
+							freeVariadic = true
+						}
+					})
+					for _, cd := range a.Conds {
+						collectSubterms(cd.T, func(s Term) {
+							if ix, ok := s.(TIndex); ok && isParamTerm(ix.X, variadic) {
+								freeVariadic = true
+							}
+						})
+					}
+				}
+				if freeVariadic {
+					dims = append(dims, dim{key: "#variadic"})
+				}
+				vals := smallInputs(n, nil)
+				if len(dims) > 1 {
+					var small []int64
+					for _, x := range vals {
+						if x >= -7 && x <= 8 {
+							small = append(small, x)
+						}
+					}
+					vals = small
+				}
+				params := map[types.Object]int64{}
+				others := map[string]int64{}
+				var rec func(k int)
+				rec = func(k int) {
+					if ag.bad != "" || ag.undec != "" {
+						return
+					}
+					if k < len(dims) {
+						d := dims[k]
+						for _, x := range vals {
+							if d.obj != nil {
+								params[d.obj] = x
+							} else {
+								if d.key != "#variadic" && (x < 0 || x > 5) {
+									continue // lengths
+								}
+								others[d.key] = x
+							}
+							rec(k + 1)
+						}
+						return
+					}
+					base := func(t Term) (int64, bool) {
+						if ix, ok := t.(TIndex); ok && variadic != nil && isParamTerm(ix.X, variadic) {
+							return others["#variadic"], true
+						}
+						if b, ok := v.countOf(t); ok && !v.isSelf(b) {
+							if m, ok := others[key(b)]; ok {
+								return m, true
+							}
+						}
+						return 0, false
+					}
+					hook := v.intHook(n, params, base)
+					// loop variables: enumerate iterations of every enclosing loop
+					var iterate func(li int, lvars map[types.Object]int64)
+					iterate = func(li int, lvars map[types.Object]int64) {
+						if ag.bad != "" || ag.undec != "" {
+							return
+						}
+						h := func(t Term) (int64, bool) {
+							switch x := t.(type) {
+							case TVar:
+								if val, ok := lvars[x.Obj]; ok {
+									return val, true
+								}
+							case TLoop:
+								if val, ok := lvars[x.Obj]; ok {
+									return val, true
+								}
+							}
+							return hook(t)
+						}
+						if li == len(a.Loops) {
+							// conditions before the access
+							for _, cd := range a.Conds {
+								if !intFoldable(cd.T) {
+									continue
+								}
+								e := &termEnv{hook: h}
+								val, ok := e.bool(cd.T)
+								if !ok {
+									continue // cannot be folded: treated as free (more inputs are taken to reach the access — sound for safety)
+								}
+								if val != cd.Truth {
+									return // not reached
+								}
+							}
+							ln, ok := v.spineLen(a.Base, n, others, h)
+							if !ok {
+								ag.undec = "length of the accessed spine is unknown"
+								return
+							}
+							ag.reached++
+							if msg := checkTermBounds(c, a.T, ln, h); msg != "" {
+								ag.bad = "n=" + itoa(int(n)) + ": " + msg
+							}
+							return
+						}
+						l := a.Loops[li]
+						if l.Range != nil {
+							// key ranges over [0, len(Over)-1] when Over is a list spine that the body does not re-install
+							b, ct := v.spineOf(l.Over)
+							if ct == nil || !ct.IsList {
+								iterate(li+1, lvars) // ranges over something else: key/value stay symbolic
+								return
+							}
+							ln, ok := v.spineLen(b, n, others, h)
+							if !ok {
+								ag.undec = "length of the ranged spine is unknown"
+								return
+							}
+							if loopInstallsSpine(v, l) {
+								ag.undec = "the ranged spine is re-installed inside the loop"
+								return
+							}
+							if l.Key == nil {
+								iterate(li+1, lvars)
+								return
+							}
+							for k := int64(0); k < ln; k++ {
+								nv := map[types.Object]int64{}
+								for a, b := range lvars {
+									nv[a] = b
+								}
+								nv[l.Key] = k
+								iterate(li+1, nv)
+							}
+							return
+						}
+						its, why := c.loopIterations(l, h, 64)
+						if why != "" {
+							// Delete-style loops over a caller slice: the loop variable is only used to pick the free variadic element
+							if freeVariadic {
+								iterate(li+1, lvars)
+								return
+							}
+							ag.undec = why
+							return
+						}
+						for _, it := range its {
+							nv := map[types.Object]int64{}
+							for a, b := range lvars {
+								nv[a] = b
+							}
+							for a, b := range it {
+								nv[a] = b
+							}
+							iterate(li+1, nv)
+						}
+					}
+					iterate(0, map[types.Object]int64{})
+				}
+				rec(0)
+			}
+		}
+		for _, sh := range order {
+			ag := byShape[sh]
+			total++
+			ob := c.Ob("C05.R2", name+"/"+sh, posOfNode(ag.acc.Node))
+			switch {
+			case ag.undec != "":
+				ob.Undecided("cannot fold up to this access: %s", ag.undec)
+			case ag.bad != "":
+				ob.Fail("spine access can be out of its LENGTH (beyond len but within cap silently resurrects deleted elements; otherwise index out of range): %s", ag.bad)
+			case ag.reached == 0:
+				ob.Undecided("no folded input reaches this access")
+			default:
+				ob.Ok("within length on all %d folded inputs that reach it", ag.reached)
+			}
 		}
 	}
+	c.R.Floor("C05.R2", total, 10)
 }
 
-func fmtVars(order []types.Object, vars map[types.Object]int64) string {
-	var s []string
-	for _, o := range order {
-		s = append(s, o.Name()+"="+itoa(int(vars[o])))
-	}
-	return strings.Join(s, ",")
-}
-
-func isSortLike(c *Ctx, fd *ast.FuncDecl) bool { return fd.Name.Name == "Sort" }
-
-func spineShrinksIn(c *Ctx, fd *ast.FuncDecl, body ast.Node, base types.Object) bool {
-	shr := false
-	ast.Inspect(body, func(n ast.Node) bool {
-		if as, ok := n.(*ast.AssignStmt); ok {
-			for _, l := range as.Lhs {
-				if b, ct := c.spineBase(l); ct != nil && c.obj(b) == base {
-					shr = true
+func loopInstallsSpine(v *sxView, l *LoopRec) bool {
+	for _, p := range l.Iter {
+		for _, s := range p.StepsOf("store") {
+			if sel, ok := s.LHS.(TSel); ok {
+				if _, ct := v.spineOf(TSel{X: sel.X, Field: sel.Field}); ct != nil {
+					return true
 				}
 			}
 		}
-		return true
-	})
-	return shr
+	}
+	return false
 }
 
-// checkBounds evaluates the index / slice bounds of a spine access in env and checks them against the length n.
-func checkBounds(c *Ctx, ev *evalEnv, e ast.Expr, n int64) string {
-	switch x := e.(type) {
-	case *ast.IndexExpr:
-		v, ok := ev.int(x.Index)
+// checkTermBounds evaluates the index / slice bounds of a spine access term against the length.
+func checkTermBounds(c *Ctx, t Term, n int64, hook func(Term) (int64, bool)) string {
+	switch x := t.(type) {
+	case TIndex:
+		e := &termEnv{hook: hook}
+		val, ok := e.int(x.I)
 		if !ok {
-			return "index expression outside the vocabulary: " + exprStr(x.Index)
+			return "index term outside the vocabulary: " + c.termStr(x.I)
 		}
-		if v < 0 || v >= n {
-			return "index " + exprStr(x.Index) + " = " + itoa(int(v)) + " with length " + itoa(int(n))
+		if val < 0 || val >= n {
+			return "index " + c.termStr(x.I) + " = " + itoa(int(val)) + " with length " + itoa(int(n))
 		}
-	case *ast.SliceExpr:
+	case TSlice:
 		lo, hi := int64(0), n
-		if x.Low != nil {
-			v, ok := ev.int(x.Low)
+		if x.Lo != nil {
+			e := &termEnv{hook: hook}
+			val, ok := e.int(x.Lo)
 			if !ok {
-				return "slice bound outside the vocabulary: " + exprStr(x.Low)
+				return "slice bound outside the vocabulary: " + c.termStr(x.Lo)
 			}
-			lo = v
+			lo = val
 		}
-		if x.High != nil {
-			v, ok := ev.int(x.High)
+		if x.Hi != nil {
+			e := &termEnv{hook: hook}
+			val, ok := e.int(x.Hi)
 			if !ok {
-				return "slice bound outside the vocabulary: " + exprStr(x.High)
+				return "slice bound outside the vocabulary: " + c.termStr(x.Hi)
 			}
-			hi = v
+			hi = val
 		}
 		if lo < 0 || lo > hi || hi > n {
 			return "slice [" + itoa(int(lo)) + ":" + itoa(int(hi)) + "] with length " + itoa(int(n)) + " (Go only checks against capacity)"
@@ -588,77 +785,91 @@ func checkBounds(c *Ctx, ev *evalEnv, e ast.Expr, n int64) string {
 	return ""
 }
 
+// writesList: the step writes list/object memory that existed before the call (store through the receiver, or a mutating call on self).
+func (v *sxView) writesPreexisting(s Step) bool {
+	switch s.Kind {
+	case "store":
+		root := s.LHS
+		for {
+			switch x := root.(type) {
+			case TSel:
+				root = x.X
+				continue
+			case TIndex:
+				root = x.X
+				continue
+			case TDeref:
+				root = x.X
+				continue
+			}
+			break
+		}
+		return v.isSelf(root)
+	case "call":
+		if s.Call != nil && s.Call.Fun != nil && s.Call.Recv != nil && v.isSelf(s.Call.Recv) && mutatorNames[s.Call.Fun.Name()] {
+			return true
+		}
+	}
+	return false
+}
+
 func c05WriteBeforePanic(c *Ctx) {
-	a := c.E3()
 	n := 0
 	for _, name := range []string{"(*list).Insert", "(*list).Replace", "(*list).Get", "(*list).Delete", "(*list).Pop", "(*list).SubList", "(*list).Sort"} {
 		fd := c.NeedDecl("C05.R3", name)
-		fn := a.ByName(name)
-		if fd == nil || fn == nil {
+		if fd == nil {
 			continue
 		}
 		n++
-		var lastPanic token.Pos
-		ast.Inspect(fd.Body, func(m ast.Node) bool {
-			if call, ok := m.(*ast.CallExpr); ok && c.isBuiltin(call, "panic") && call.Pos() > lastPanic {
-				lastPanic = call.Pos()
-			}
-			return true
-		})
 		ob := c.Ob("C05.R3", name, fd.Pos())
+		paths, why := c.runPaths(fd)
+		if why != "" {
+			ob.Undecided("body outside the path vocabulary: %s", why)
+			continue
+		}
+		v := c.view(fd)
 		bad := ""
-		for _, e := range a.eff[fn] {
-			if e.Target&oROOTS&^oFRESH == 0 {
-				continue
-			}
-			if e.Kind == "reorder-arg" {
-				continue // sorts the caller's index slice, not a list
-			}
-			if lastPanic.IsValid() && e.Pos < lastPanic {
-				// allowed only when the panic is in a different switch arm / branch that excludes the write: check they share no path
-				if !exclusiveBranches(fd, e.Pos, lastPanic) {
-					bad = e.Kind + " at " + c.Pos(e.Pos) + " precedes the panic at " + c.Pos(lastPanic)
+		var check func(ps []*Path, inLoop bool)
+		check = func(ps []*Path, inLoop bool) {
+			for _, p := range ps {
+				if p.End == "panic" {
+					for i, s := range p.Steps {
+						// for panics raised inside a loop only the steps of the same iteration count (they follow the loop step)
+						if inLoop {
+							_ = i
+						}
+						if v.writesPreexisting(s) {
+							bad = "a path that ends in a panic first performs " + c.stepStr(s)
+						}
+					}
+				}
+				for _, s := range p.Steps {
+					if s.Kind == "loop" {
+						check(s.Loop.Iter, true)
+					}
 				}
 			}
 		}
+		check(paths, false)
 		if bad != "" {
 			ob.Fail("a list is modified before the operation panics: %s", bad)
 		} else {
-			ob.Ok("every write effect on pre-existing memory comes after the last explicit panic (or lies in an arm exclusive with it): a panicking call leaves every list unchanged")
+			ob.Ok("no path that ends in a panic contains a write to pre-existing list memory (within one iteration for Delete): a panicking single-index call leaves every list unchanged")
 		}
 	}
 	c.R.Floor("C05.R3", n, 7)
 }
 
-// exclusiveBranches: positions p and q lie in different case clauses of one switch.
-func exclusiveBranches(fd *ast.FuncDecl, p, q token.Pos) bool {
-	excl := false
-	ast.Inspect(fd.Body, func(n ast.Node) bool {
-		var body *ast.BlockStmt
-		switch x := n.(type) {
-		case *ast.SwitchStmt:
-			body = x.Body
-		case *ast.TypeSwitchStmt:
-			body = x.Body
+func (c *Ctx) stepStr(s Step) string {
+	switch s.Kind {
+	case "store":
+		return c.termStr(s.LHS) + " = " + c.termStr(s.RHS)
+	case "call":
+		if s.Call != nil {
+			return c.termStr(*s.Call)
 		}
-		if body == nil {
-			return true
-		}
-		var cp, cq ast.Stmt
-		for _, cl := range body.List {
-			if cl.Pos() <= p && p < cl.End() {
-				cp = cl
-			}
-			if cl.Pos() <= q && q < cl.End() {
-				cq = cl
-			}
-		}
-		if cp != nil && cq != nil && cp != cq {
-			excl = true
-		}
-		return true
-	})
-	return excl
+	}
+	return s.Kind
 }
 
 func c05Reference(c *Ctx) {
@@ -666,46 +877,145 @@ func c05Reference(c *Ctx) {
 	if fd := c.NeedDecl("C05.R6", "(*list).Get"); fd != nil {
 		n++
 		ob := c.Ob("C05.R6", "(*list).Get", fd.Pos())
+		paths, why := c.runPaths(fd)
+		v := c.view(fd)
 		ps := intParams(c, fd)
-		last, ok := fd.Body.List[len(fd.Body.List)-1].(*ast.ReturnStmt)
-		good := ok && len(last.Results) == 1 && len(ps) == 1
-		if good {
-			call, ok := unparen(last.Results[0]).(*ast.CallExpr)
-			good = ok && len(call.Args) == 0 && c.isValueAccessor(c.callee(call))
-			if good {
-				sel := unparen(call.Fun).(*ast.SelectorExpr)
-				ix, ok := unparen(sel.X).(*ast.IndexExpr)
-				good = ok && c.isRecvSpine(fd, ix.X) && c.obj(ix.Index) == ps[0]
+		good := why == "" && len(ps) == 1
+		rets := 0
+		for _, p := range paths {
+			if p.End != "return" {
+				continue
 			}
+			rets++
+			if len(p.Vals) != 1 {
+				good = false
+				continue
+			}
+			el, ok := v.valueOf(p.Vals[0])
+			if !ok {
+				good = false
+				continue
+			}
+			ix, ok := el.(TIndex)
+			good = good && ok && v.isRecvSpine(ix.X) && isParamTerm(ix.I, ps[0])
 		}
-		ob.Check(good, "returns spine[index].getVal(): the identical nested container for containers (C19.R3), the value for scalars", "Get does not return spine[index].getVal()")
+		ob.Check(good && rets > 0, "returns spine[index].getVal(): the identical nested container for containers (C19.R3), the value for scalars", "Get does not return spine[index].getVal()")
 	}
 	if fd := c.NeedDecl("C05.R6", "(*list).IndexOf"); fd != nil {
 		n++
 		ob := c.Ob("C05.R6", "(*list).IndexOf", fd.Pos())
-		val := soleParam(c, fd)
-		sl := spineLoops(c, fd)
-		good := len(sl) == 1 && len(fd.Body.List) == 2
-		if good {
-			l := sl[0]
-			nf := c.loopNormalForm(l.Stmt.Body)
-			good = len(nf.Undecided) == 0 && len(nf.Actions) == 1 && nf.Actions[0].Kind == "return" && len(nf.Actions[0].Guard) == 1 && !nf.Actions[0].Guard[0].Neg
-			if good {
-				ret := nf.Actions[0].Stmt.(*ast.ReturnStmt)
-				good = len(ret.Results) == 1 && l.Key != nil && c.obj(ret.Results[0]) == l.Key
-				be, ok := nf.Actions[0].Guard[0].Expr.(*ast.BinaryExpr)
-				good = good && ok && be.Op == token.EQL && ((c.elemForm(be.X, l.Value) == "val" && c.obj(be.Y) == val) || (c.elemForm(be.Y, l.Value) == "val" && c.obj(be.X) == val))
-			}
-			r, ok := fd.Body.List[1].(*ast.ReturnStmt)
-			good = good && ok && len(r.Results) == 1
-			if good {
-				k, ok := c.constInt(r.Results[0])
-				good = ok && k == -1
-			}
+		why := searchLoopShape(c, fd, "key")
+		if why == "" {
+			ob.Ok("first index whose getVal() == value, else -1")
+		} else {
+			ob.Fail("IndexOf is not the first-match search over getVal(): %s", why)
 		}
-		ob.Check(good, "first index whose getVal() == value, else -1", "IndexOf is not the first-match search over getVal()")
 	}
 	c.R.Floor("C05.R6", n, 2)
+}
+
+// searchLoopShape checks `for k, e := range recv.spine { if e.getVal() == param { return HIT } }; MISS`.
+// what: "key" (return the range key, miss = -1), "true" (return true, miss = false), "keyOrPanic" (return key, miss = panic).
+func searchLoopShape(c *Ctx, fd *ast.FuncDecl, what string) string {
+	paths, why := c.runPaths(fd)
+	if why != "" {
+		return "body outside the path vocabulary: " + why
+	}
+	v := c.view(fd)
+	par := soleParam(c, fd)
+	var loop *LoopRec
+	misses := 0
+	for _, p := range paths {
+		hasLoop := false
+		for _, s := range p.Steps {
+			switch s.Kind {
+			case "loop":
+				loop, hasLoop = s.Loop, true
+			case "cond":
+			default:
+				return "unexpected effect " + c.stepStr(s)
+			}
+		}
+		if !hasLoop {
+			return "a path bypasses the search loop"
+		}
+		// the outer path that is not an in-loop exit: ends after the loop
+		last := p.Steps[len(p.Steps)-1]
+		if last.Kind == "loop" {
+			misses++
+			switch what {
+			case "key":
+				k, ok := constInt(simplifyRet(p))
+				if p.End != "return" || !ok || k != -1 {
+					return "an exhausted search does not return -1"
+				}
+			case "true":
+				if p.End != "return" || len(p.Vals) != 1 || !isConstBoolTerm(simplify(p.Vals[0]), false) {
+					return "an exhausted search does not return false"
+				}
+			case "keyOrPanic":
+				if p.End != "panic" {
+					return "an exhausted search does not panic"
+				}
+			}
+		}
+	}
+	if loop == nil || misses != 1 {
+		return "expected exactly one search loop followed by the miss result"
+	}
+	if loop.Range == nil || !v.isRecvSpine(loop.Over) {
+		return "the loop does not range over the receiver's own spine"
+	}
+	if len(loop.Iter) != 2 {
+		return "loop body is not a single match test"
+	}
+	for _, ip := range loop.Iter {
+		conds := ip.Conds()
+		if len(conds) != 1 || len(ip.Effects()) != 0 {
+			return "loop body is not a single match test"
+		}
+		b, ok := conds[0].T.(TBin)
+		if !ok || (b.Op != token.EQL && b.Op != token.NEQ) {
+			return "match test is not an == comparison"
+		}
+		elemVal := func(t Term) bool {
+			e, ok := v.valueOf(t)
+			if !ok {
+				return false
+			}
+			if loop.Value != nil && isParamTerm(e, loop.Value) {
+				return true
+			}
+			ix, ok := e.(TIndex)
+			return ok && v.isRecvSpine(ix.X) && loop.Key != nil && isParamTerm(ix.I, loop.Key)
+		}
+		if !((elemVal(b.X) && isParamTerm(b.Y, par)) || (elemVal(b.Y) && isParamTerm(b.X, par))) {
+			return "match test does not compare element.getVal() with the argument"
+		}
+		match := conds[0].Truth == (b.Op == token.EQL)
+		if match {
+			switch what {
+			case "key", "keyOrPanic":
+				if ip.End != "return" || len(ip.Vals) != 1 || loop.Key == nil || !isParamTerm(ip.Vals[0], loop.Key) {
+					return "a match does not return the range key"
+				}
+			case "true":
+				if ip.End != "return" || len(ip.Vals) != 1 || !isConstBoolTerm(simplify(ip.Vals[0]), true) {
+					return "a match does not return true"
+				}
+			}
+		} else if ip.End != "fall" && ip.End != "continue" {
+			return "a non-match does not continue the search"
+		}
+	}
+	return ""
+}
+
+func simplifyRet(p *Path) Term {
+	if len(p.Vals) != 1 {
+		return nil
+	}
+	return simplify(p.Vals[0])
 }
 
 // ---------------------------------------------------------------- C17
@@ -713,202 +1023,264 @@ func c05Reference(c *Ctx) {
 func init() {
 	register(&Property{
 		ID: "C17",
-		Explanation: "Sort: the switch on element 0's wrapper pairs each of the three sortable kinds with the typed slice of the SAME kind (selection decided by C14), a sort function of the trusted table applied to that slice, and a hand-over of NewListFrom(slice)'s fresh spine to the RECEIVER; " +
-			"the default arm panics with no prior write; the return is fluent. Multiset preservation = XSlice keeps every element of kind X (C14) + sort.* permutes (trusted) + NewListFrom copies element-wise (C12.R2). " +
-			"Reverse: the loop's index set, folded for n = 0..9, is exactly [0, floor(n/2)-1]; the body is a true swap v[i], v[j] = v[j], v[i] with j = n-1-i on the receiver's spine and nothing else is written, hence the permutation i -> n-1-i, an involution. " +
+		Explanation: "Decided on the SX path normal form. Sort: every path that passes a positive kind test on element 0 (string, int or float wrapper) performs exactly: a typed slice view of the SAME kind of the receiver (selection decided by C14), a sort function of the trusted table applied to that slice, and the hand-over of NewListFrom(that slice)'s fresh spine to the RECEIVER; " +
+			"the path on which no kind test succeeds panics without any write; every return is the registered ego. Multiset preservation = XSlice keeps every element of kind X (C14) + sort.* permutes (trusted) + NewListFrom copies element-wise (C12.R2). " +
+			"Reverse: the loop header is simulated on integers for n = 0..9 and must swap exactly the floor(n/2) mirrored pairs (i, n-1-i), each once, by a true parallel swap on the receiver's spine, with no other write — the permutation i -> n-1-i, an involution. " +
 			"Heterogeneous lists and the empty list for Sort are outside the property's domain.",
 		Rules: []Rule{
-			{ID: "C17.R1", Doc: "Sort table: wrapper kind <-> typed slice of that kind <-> trusted sort function on that slice <-> NewListFrom(slice) spine handed to the receiver; default panics before any write; fluent return", Run: c17Sort},
-			{ID: "C17.R2", Doc: "Reverse: index set = [0, n/2-1] (folded n=0..9), true swap with the mirrored index n-1-i on the receiver's spine, no other write", Run: c17Reverse},
+			{ID: "C17.R1", Doc: "Sort: kind test on element 0 <-> typed slice of that kind <-> trusted sort function on that slice <-> NewListFrom(slice) spine handed to the receiver; no kind => panic before any write; fluent return", Run: c17Sort},
+			{ID: "C17.R2", Doc: "Reverse: swaps exactly the mirrored pairs (i, n-1-i), i < n/2 (header simulated for n=0..9), by a parallel swap on the receiver's spine; no other write", Run: c17Reverse},
 		},
 	})
 }
 
 var trustedSorts = map[string]string{"sort.Strings": "string", "sort.Ints": "int", "sort.Float64s": "float", "slices.Sort": "*"}
 
+// kindTestOf: a condition term that tests the kind of an element: type-switch test or comma-ok assertion; returns operand and type.
+func kindTestOf(t Term) (Term, types.Type, bool) {
+	switch x := t.(type) {
+	case TTypeIs:
+		return x.X, x.To, true
+	case TProj:
+		if a, ok := x.X.(TAssert); ok && x.K == 1 {
+			return a.X, a.To, true
+		}
+	}
+	return nil, nil, false
+}
+
 func c17Sort(c *Ctx) {
 	fd := c.NeedDecl("C17.R1", "(*list).Sort")
 	if fd == nil {
 		return
 	}
-	ts := findTypeSwitch(fd.Body)
-	if ts == nil {
-		c.Ob("C17.R1", "(*list).Sort", fd.Pos()).Undecided("no kind switch")
+	paths, why := c.runPaths(fd)
+	if why != "" {
+		c.Ob("C17.R1", "(*list).Sort", fd.Pos()).Undecided("body outside the path vocabulary: %s", why)
 		return
 	}
-	op := typeSwitchOperand(ts)
-	ix, ok := unparen(op).(*ast.IndexExpr)
-	good := ok && c.isRecvSpine(fd, ix.X)
-	if good {
-		k, ok := c.constInt(ix.Index)
-		good = ok && k == 0
-	}
-	c.Ob("C17.R1", "(*list).Sort/operand", ts.Pos()).Check(good, "switches on the wrapper of element 0", "Sort does not switch on the kind of element 0")
+	v := c.view(fd)
 	arms := map[string]bool{}
-	hasDefault := false
-	for _, cl := range ts.Body.List {
-		cc := cl.(*ast.CaseClause)
-		if cc.List == nil {
-			hasDefault = true
-			c.Ob("C17.R1", "(*list).Sort/default", cc.Pos()).Check(blockPanicsOnly(c, cc.Body), "a first element of another kind panics before anything is written", "default arm does not simply panic")
+	nPanic := 0
+	for i, p := range paths {
+		// the positive kind test on element 0
+		kind := ""
+		badTest := ""
+		for _, cd := range p.Conds() {
+			op, T, ok := kindTestOf(cd.T)
+			if !ok {
+				badTest = "decision that is not a kind test: " + c.termStr(cd.T)
+				continue
+			}
+			ix, isIx := op.(TIndex)
+			k0, isC := int64(0), false
+			if isIx {
+				k0, isC = constInt(ix.I)
+			}
+			if !isIx || !v.isRecvSpine(ix.X) || !isC || k0 != 0 {
+				badTest = "kind test is not on element 0 of the receiver"
+			}
+			if cd.Truth {
+				kind = c.kindOfType(T)
+				if _, isPtr := T.(*types.Pointer); !isPtr {
+					badTest = "kind test is not on a wrapper type"
+				}
+			}
+		}
+		pname := "(*list).Sort/path#" + itoa(i+1)
+		if kind != "" {
+			pname = "(*list).Sort/kind " + kind
+		}
+		ob := c.Ob("C17.R1", pname, posOfNode(p.Node))
+		if badTest != "" {
+			ob.Fail("%s", badTest)
 			continue
 		}
-		if len(cc.List) != 1 {
-			c.Ob("C17.R1", "(*list).Sort/arm", cc.Pos()).Undecided("multi-type arm")
+		if kind == "" {
+			// no kind matched: must panic without effects
+			nPanic++
+			bad := p.End != "panic"
+			for _, s := range p.Steps {
+				if v.writesPreexisting(s) {
+					bad = true
+				}
+			}
+			ob.Check(!bad, "a first element of another kind panics before anything is written", "when element 0 is neither string, int nor float the method does not panic before any write")
 			continue
 		}
-		T := c.typeOf(cc.List[0])
-		kind := c.kindOfType(T)
-		ob := c.Ob("C17.R1", "(*list).Sort/case "+shortType(T), cc.Pos())
-		if _, isPtr := T.(*types.Pointer); !isPtr || (kind != "string" && kind != "int" && kind != "float") {
-			ob.Fail("arm for %s: only string, int and float lists are sortable", shortType(T))
+		if kind != "string" && kind != "int" && kind != "float" {
+			ob.Fail("arm for kind %s: only string, int and float lists are sortable", kind)
 			continue
 		}
 		arms[kind] = true
-		if len(cc.Body) != 3 {
-			ob.Fail("arm is not: typed slice; sort; hand-over")
-			continue
-		}
-		as, ok1 := cc.Body[0].(*ast.AssignStmt)
-		es, ok2 := cc.Body[1].(*ast.ExprStmt)
-		ho, ok3 := cc.Body[2].(*ast.AssignStmt)
-		if !ok1 || !ok2 || !ok3 || len(as.Lhs) != 1 || len(as.Rhs) != 1 || len(ho.Lhs) != 1 || len(ho.Rhs) != 1 {
-			ob.Fail("unexpected statements in the arm")
-			continue
-		}
-		slice := c.obj(as.Lhs[0])
-		sc, ok := unparen(as.Rhs[0]).(*ast.CallExpr)
-		if !ok || len(sc.Args) != 0 {
-			ob.Fail("the arm does not start from a typed slice of the receiver")
-			continue
-		}
-		ssel, ok := unparen(sc.Fun).(*ast.SelectorExpr)
-		if !ok || !c.isSelf(fd, ssel.X) || c.callee(sc) == nil || c14Family(c.callee(sc).Name()) != "Slice" {
-			ob.Fail("the arm does not start from a typed slice view of the receiver")
-			continue
-		}
-		st, _ := c.typeOf(sc).Underlying().(*types.Slice)
-		if st == nil || c.kindOfType(st.Elem()) != kind {
-			ob.Fail("the %s arm sorts the %s elements (%s): the other elements are lost and the list changes kind", kind, c.kindOfType(st.Elem()), c.callee(sc).Name())
-			continue
-		}
-		call, ok := es.X.(*ast.CallExpr)
-		full := ""
-		if ok {
-			full = c.calleeFull(call)
-		}
-		tk, trusted := trustedSorts[full]
-		if !trusted || len(call.Args) != 1 || c.obj(call.Args[0]) != slice || (tk != "*" && tk != kind) {
-			ob.Fail("the slice is not ordered by a sort function of the trusted table applied to it (found %s): non-decreasing order is not guaranteed for all values", exprStr(es.X))
-			continue
-		}
-		// hand-over: recv.val = NewListFrom(slice).(*list).val
-		goodHO := c.isRecvSpine(fd, ho.Lhs[0]) && ho.Tok == token.ASSIGN
-		if goodHO {
-			base, bct := c.spineBase(ho.Rhs[0])
-			goodHO = bct != nil && bct.IsList
-			if goodHO {
-				e := unparen(base)
-				if ta, ok := e.(*ast.TypeAssertExpr); ok {
-					e = unparen(ta.X)
+		// effects: one trusted sort call on S; one store recv.spine = NewListFrom(S).(*list).spine
+		var sortArg, handover Term
+		nSort, nStore, other := 0, 0, ""
+		for _, s := range p.Effects() {
+			switch s.Kind {
+			case "call":
+				if s.Call != nil && s.Call.Fun != nil {
+					full := s.Call.Fun.FullName()
+					if tk, ok := trustedSorts[full]; ok && len(s.Call.Args) == 1 && (tk == "*" || tk == kind) {
+						nSort++
+						sortArg = s.Call.Args[0]
+						continue
+					}
+					if s.Call.Fun.Name() == "NewListFrom" || s.Call.Fun.Pkg() == c.Types && !mutatorNames[s.Call.Fun.Name()] {
+						continue // constructor / observer calls are not effects on the receiver
+					}
+					other = "call of " + c.termStr(*s.Call)
 				}
-				nc, ok := e.(*ast.CallExpr)
-				goodHO = ok && len(nc.Args) == 1 && c.obj(nc.Args[0]) == slice && c.callee(nc) != nil && c.callee(nc).Name() == "NewListFrom"
+			case "store":
+				if sel, ok := s.LHS.(TSel); ok && sel.Field == v.ct.Spine && v.isRecv(sel.X) {
+					nStore++
+					handover = s.RHS
+					continue
+				}
+				other = "store " + c.termStr(s.LHS)
+			default:
+				other = s.Kind
 			}
 		}
-		if !goodHO {
-			ob.Fail("the sorted slice is not rebuilt with NewListFrom(slice) and installed as the RECEIVER's spine (the same list must be rearranged in place)")
+		if other != "" || nSort != 1 || nStore != 1 {
+			ob.Fail("the %s arm is not exactly: one trusted sort call, one hand-over of the receiver's spine (found %d sort calls, %d spine stores%s): non-decreasing order or in-place rearrangement is not guaranteed", kind, nSort, nStore, map[bool]string{true: ", " + other, false: ""}[other != ""])
 			continue
 		}
-		ob.Ok("%s: %s() -> %s -> receiver.spine = NewListFrom(slice).spine", kind, c.callee(sc).Name(), full)
+		// S = self.XSlice() of the same kind
+		sc, ok := sortArg.(TCall)
+		good := ok && sc.Fun != nil && sc.Recv != nil && v.isSelf(sc.Recv) && len(sc.Args) == 0 && c14Family(sc.Fun.Name()) == "Slice"
+		if good {
+			st, _ := sc.Fun.Type().(*types.Signature).Results().At(0).Type().Underlying().(*types.Slice)
+			good = st != nil && c.kindOfType(st.Elem()) == kind
+		}
+		if !good {
+			ob.Fail("the sorted slice is not the typed slice view of kind %s of the receiver (found %s): other elements are lost or the list changes kind", kind, c.termStr(sortArg))
+			continue
+		}
+		// hand-over = spine of NewListFrom(S)
+		hb, hct := v.spineOf(handover)
+		good = hct != nil && hct.IsList
+		if good {
+			if a, ok := hb.(TAssert); ok {
+				hb = a.X
+			}
+			nc, ok := hb.(TCall)
+			good = ok && nc.Fun != nil && nc.Fun.Name() == "NewListFrom" && len(nc.Args) == 1 && sameTerm(nc.Args[0], sortArg)
+		}
+		if !good {
+			ob.Fail("the sorted slice is not rebuilt with NewListFrom(slice) and installed as the RECEIVER's spine (found %s)", c.termStr(handover))
+			continue
+		}
+		if p.End != "return" || len(p.Vals) != 1 || !v.isEgo(p.Vals[0]) {
+			ob.Fail("the arm does not return the registered ego")
+			continue
+		}
+		ob.Ok("%s: %s() -> %s -> receiver.spine = NewListFrom(slice).spine; returns ego", kind, sc.Fun.Name(), "trusted sort")
 	}
-	c.Ob("C17.R1", "(*list).Sort/arms", ts.Pos()).Check(len(arms) == 3 && hasDefault, "arms for string, int, float and a panicking default", "expected arms for exactly string, int, float plus a default")
-	// nothing but the switch and the fluent return
-	good = len(fd.Body.List) == 2
-	if good {
-		r, ok := fd.Body.List[1].(*ast.ReturnStmt)
-		good = ok && len(r.Results) == 1 && c.isEgo(fd, r.Results[0])
-	}
-	c.Ob("C17.R1", "(*list).Sort/frame", fd.Pos()).Check(good, "body = kind switch; return ego", "Sort has statements besides the kind switch and the fluent return")
+	c.Ob("C17.R1", "(*list).Sort/arms", fd.Pos()).Check(len(arms) == 3 && nPanic == 1, "paths for string, int, float and one panicking path for every other kind", "expected sorting paths for exactly string, int, float plus one panicking path")
 }
 
-func c17Reverse(c *Ctx) {
-	fd := c.NeedDecl("C17.R2", "(*list).Reverse")
+func c17Reverse(c *Ctx) { reverseRule(c, "C17.R2") }
+
+func reverseRule(c *Ctx, R string) {
+	fd := c.NeedDecl(R, "(*list).Reverse")
 	if fd == nil {
 		return
 	}
-	ob := c.Ob("C17.R2", "(*list).Reverse/index-set", fd.Pos())
-	var loop *ast.ForStmt
-	for _, s := range fd.Body.List {
-		if fs, ok := s.(*ast.ForStmt); ok && loop == nil {
-			loop = fs
-		}
+	ob := c.Ob(R, "(*list).Reverse/index-set", fd.Pos())
+	paths, why := c.runPaths(fd)
+	if why != "" {
+		ob.Undecided("body outside the path vocabulary: %s", why)
+		return
 	}
-	if loop == nil || len(allLoops(fd)) != 1 {
-		// slices.Reverse(recv.spine) from the trusted table
-		for _, s := range fd.Body.List {
-			if es, ok := s.(*ast.ExprStmt); ok {
-				if call, ok := es.X.(*ast.CallExpr); ok && c.calleeFull(call) == "slices.Reverse" && len(call.Args) == 1 && c.isRecvSpine(fd, call.Args[0]) {
-					ob.Ok("slices.Reverse on the receiver's spine (trusted table)")
-					return
-				}
+	v := c.view(fd)
+	if len(paths) != 1 {
+		ob.Fail("Reverse has %d paths; expected a single path with one swap loop", len(paths))
+		return
+	}
+	p := paths[0]
+	var loop *LoopRec
+	for _, s := range p.Steps {
+		switch s.Kind {
+		case "loop":
+			if loop != nil {
+				ob.Fail("more than one loop")
+				return
 			}
-		}
-		ob.Undecided("Reverse is neither one index loop nor slices.Reverse(spine)")
-		return
-	}
-	h, ok := c.forHeader(loop)
-	if !ok {
-		ob.Undecided("loop header outside the vocabulary (accepted: one index variable, constant step, comparison bound)")
-		return
-	}
-	if why := loopHasEarlyExit(loop); why != "" {
-		ob.Fail("%s inside the swap loop", why)
-		return
-	}
-	// the swap statement
-	var swap *ast.AssignStmt
-	for _, s := range loop.Body.List {
-		if as, ok := s.(*ast.AssignStmt); ok && len(as.Lhs) == 2 && len(as.Rhs) == 2 && as.Tok == token.ASSIGN {
-			swap = as
+			loop = s.Loop
+		case "call":
+			if s.Call != nil && s.Call.Fun != nil && s.Call.Fun.FullName() == "slices.Reverse" && len(s.Call.Args) == 1 && v.isRecvSpine(s.Call.Args[0]) {
+				ob.Ok("slices.Reverse on the receiver's spine (trusted table)")
+				return
+			}
+			ob.Fail("unexpected call %s", c.termStr(*s.Call))
+			return
+		case "store":
+			ob.Fail("write outside the swap loop")
+			return
 		}
 	}
-	sob := c.Ob("C17.R2", "(*list).Reverse/swap", loop.Pos())
-	if swap == nil {
-		sob.Fail("no tuple-assignment swap in the loop (two separate assignments overwrite one element)")
+	if loop == nil || loop.For == nil {
+		ob.Undecided("Reverse is neither one counted loop nor slices.Reverse(spine)")
 		return
 	}
-	l0, okA := unparen(swap.Lhs[0]).(*ast.IndexExpr)
-	l1, okB := unparen(swap.Lhs[1]).(*ast.IndexExpr)
-	if !okA || !okB || !c.isRecvSpine(fd, l0.X) || !c.isRecvSpine(fd, l1.X) || !c.sameExpr(swap.Rhs[0], swap.Lhs[1]) || !c.sameExpr(swap.Rhs[1], swap.Lhs[0]) {
-		sob.Fail("the swap is not v[a], v[b] = v[b], v[a] on the receiver's spine")
+	if len(loop.Iter) != 1 || loop.Iter[0].End != "fall" || len(loop.Iter[0].Conds()) != 0 {
+		ob.Fail("the swap loop body is not straight-line")
+		return
+	}
+	it := loop.Iter[0]
+	stores := it.StepsOf("store")
+	sob := c.Ob(R, "(*list).Reverse/swap", loop.Node.Pos())
+	if len(stores) != 2 || len(it.Effects()) != 2 {
+		sob.Fail("the loop body does not consist of exactly the two element stores of a swap")
+		return
+	}
+	l0, ok0 := stores[0].LHS.(TIndex)
+	l1, ok1 := stores[1].LHS.(TIndex)
+	r0, ok2 := stores[0].RHS.(TIndex)
+	r1, ok3 := stores[1].RHS.(TIndex)
+	if !ok0 || !ok1 || !ok2 || !ok3 || !v.isRecvSpine(l0.X) || !v.isRecvSpine(l1.X) || !v.isRecvSpine(r0.X) || !v.isRecvSpine(r1.X) ||
+		!sameTerm(l0.I, r1.I) || !sameTerm(l1.I, r0.I) || r0.Epoch != r1.Epoch {
+		sob.Fail("the swap is not the parallel assignment v[a], v[b] = v[b], v[a] on the receiver's spine (two sequential assignments overwrite one element)")
 		return
 	}
 	bad, undec := "", ""
 	cases := 0
 	for n := int64(0); n <= 9 && bad == "" && undec == ""; n++ {
+		hook := v.intHook(n, nil, nil)
+		its, why := c.loopIterations(loop, hook, 64)
+		if why != "" {
+			undec = why
+			break
+		}
 		visited := map[int64]bool{}
-		for i := int64(-2); i <= n+2; i++ {
-			out, ev, why := c.foldFunc(fd, foldCase{N: n, Vars: map[types.Object]int64{h.Var: i}}, swap)
-			if out == foUndec {
-				undec = why
-				break
+		for _, st := range its {
+			h := func(t Term) (int64, bool) {
+				switch x := t.(type) {
+				case TLoop:
+					if val, ok := st[x.Obj]; ok {
+						return val, true
+					}
+				case TVar:
+					if val, ok := st[x.Obj]; ok {
+						return val, true
+					}
+				}
+				return hook(t)
 			}
-			if out != foReach {
-				continue
+			ea, eb := &termEnv{hook: h}, &termEnv{hook: h}
+			a, okA := ea.int(l0.I)
+			b, okB := eb.int(l1.I)
+			if !okA || !okB {
+				undec = "swap indices outside the vocabulary: " + c.termStr(l0.I) + ", " + c.termStr(l1.I)
+				break
 			}
 			cases++
-			a, ok1 := ev.int(l0.Index)
-			b, ok2 := ev.int(l1.Index)
-			if !ok1 || !ok2 {
-				undec = "swap indices outside the vocabulary"
-				break
-			}
 			if a > b {
 				a, b = b, a
 			}
 			if a+b != n-1 || a < 0 || b >= n || a == b {
-				bad = "n=" + itoa(int(n)) + " i=" + itoa(int(i)) + ": swaps positions " + itoa(int(a)) + " and " + itoa(int(b)) + ", which are not a mirrored pair (a + b = n-1, a < b)"
+				bad = "n=" + itoa(int(n)) + ": swaps positions " + itoa(int(a)) + " and " + itoa(int(b)) + ", which are not a mirrored pair (a + b = n-1, a < b)"
 				break
 			}
 			if visited[a] {
@@ -928,22 +1300,7 @@ func c17Reverse(c *Ctx) {
 		ob.Fail("%s", bad)
 	default:
 		ob.Ok("for n = 0..9 the loop swaps exactly the floor(n/2) mirrored pairs (i, n-1-i), each once (%d swaps folded)", cases)
-		sob.Ok("true swap v[a], v[b] = v[b], v[a] on the receiver's spine")
+		sob.Ok("parallel swap v[a], v[b] = v[b], v[a] on the receiver's spine; nothing else is written")
 	}
-	// no other write: E3 effects of Reverse are exactly the two element stores
-	a := c.E3()
-	if fn := a.ByName("(*list).Reverse"); fn != nil {
-		n := 0
-		other := ""
-		for _, e := range a.eff[fn] {
-			if e.Kind == "store-elem" && e.Target&oROOTS == oRECV && e.Value&oROOTS == oELEM {
-				n++
-			} else {
-				other = e.Kind
-			}
-		}
-		c.Ob("C17.R2", "(*list).Reverse/frame", fd.Pos()).Check(n == 2 && other == "", "the only writes are the two element stores of the swap (elements of the same spine): a permutation, nothing lost or altered", "Reverse performs other writes ("+other+") or not exactly two element stores")
-	}
-	last, isRet := fd.Body.List[len(fd.Body.List)-1].(*ast.ReturnStmt)
-	c.Ob("C17.R2", "(*list).Reverse/return", fd.Pos()).Check(isRet && len(last.Results) == 1 && c.isEgo(fd, last.Results[0]), "fluent return", "Reverse does not return ego")
+	c.Ob(R, "(*list).Reverse/return", fd.Pos()).Check(p.End == "return" && len(p.Vals) == 1 && v.isEgo(p.Vals[0]), "fluent return", "Reverse does not return ego")
 }
